@@ -133,6 +133,7 @@ MCNVals3 == {-1, 0, 1, 2}
 MCNValsPlain == {-1}
 MCNValsLong == {-1, 1, 3}
 MCNValsC == {0, 1, 2}
+MCNValsI == {1, 2, 3}
 MCFuncSeq1 == <<"f1">>
 MCSites1 == {1}
 =============================================================================
